@@ -129,7 +129,7 @@ def applicable_breaking(m):
     return sorted(set(out))
 
 
-def breaking(draw, m, only=None):
+def breaking(draw, m, only=None, type_names=None):
     """Apply one breaking mutation drawn from the applicable catalog entries."""
     m2 = copy.deepcopy(m)
     kinds = applicable_breaking(m)
@@ -147,12 +147,16 @@ def breaking(draw, m, only=None):
     info = {"kind": kind, "removed": [], "affected": []}
     if kind in ("insert_member", "remove_member", "reorder_members", "member_type", "array_bound"):
         aggs = _reachable_of_kind(m2, AGG)
+        if type_names is not None:
+            aggs = [t for t in aggs if t["name"] in type_names]
         if kind == "remove_member":
             aggs = [t for t in aggs if len(_named_members(t)) >= 2 and len(t["members"]) >= 2]
         elif kind == "reorder_members":
             aggs = [t for t in aggs if len(_named_members(t)) >= 2 and t["kind"] != "union"]
         elif kind == "array_bound":
             aggs = [t for t in aggs if any(mm["type"][0] == "a" for mm in t["members"] if "anon" not in mm)]
+        if not aggs:
+            return None, None
         t = _pick(draw, aggs)
         info["type"] = t["name"]
         info["depth"] = usage_depth(m, t["name"])
